@@ -8,6 +8,7 @@ pub mod fsdrive;
 pub mod fsgen;
 pub mod fsmodel;
 pub mod fstypes;
+pub mod hsweep;
 pub mod obs;
 pub mod props;
 pub mod refpath;
